@@ -176,8 +176,83 @@ def extract():
                 extra.append((ast.unparse(node.test), e.elts[0].attr, ast.unparse(e.elts[1])))
     if not page_map:
         raise ValueError("entity_list_page_map not found in Documentation.__init__")
+    links = extract_links(classes, pclasses)
     return dict(cu=cu, ty=ty, bd=bd, has_prune=has_prune, pins=pins, srcs=srcs, containers=containers, chain=chain,
-                prune_loop=prune_loop, ranklist=ranklist_src, page_map=page_map, page_map_extra=extra)
+                prune_loop=prune_loop, ranklist=ranklist_src, page_map=page_map, page_map_extra=extra, links=links)
+
+
+def _defining(classes, mname):
+    """names of the classes whose body defines a method / property `mname`"""
+    return sorted(c for c, n in classes.items()
+                  if any(isinstance(m, (ast.FunctionDef, ast.AsyncFunctionDef)) and m.name == mname for m in n.body))
+
+
+def extract_links(classes, pclasses):
+    """the mechanism that turns a `[[name]]` in a doc comment into a URL: where a name is looked up
+    (`FortranBase.children` order, `find_child`, `Project.find` over LINK_TYPES, the three steps of
+    `FordLinkProcessor.convert_link`) and which classes override any part of it."""
+    ch = _method(classes, "FortranBase", "children")
+    child_lists = None
+    non_list = None
+    for node in ast.walk(ch):
+        if isinstance(node, ast.Call) and ast.unparse(node.func) == "self.iterator":
+            if child_lists is not None:
+                raise ValueError("two self.iterator(...) calls in FortranBase.children")
+            if not all(isinstance(a, ast.Constant) and isinstance(a.value, str) for a in node.args) or node.keywords:
+                raise ValueError("FortranBase.children: iterator arguments are not string literals")
+            child_lists = [a.value for a in node.args]
+        if isinstance(node, ast.Assign) and ast.unparse(node.targets[0]) == "non_list_children":
+            if not isinstance(node.value, ast.List):
+                raise ValueError("non_list_children is not a list literal")
+            non_list = [e.value for e in node.value.elts]
+    if not child_lists or non_list is None:
+        raise ValueError("FortranBase.children: iterator lists / non_list_children not found")
+    # the shape of the property around the two tables
+    ret = [n for n in ch.body if isinstance(n, ast.Return)]
+    if len(ret) != 1 or not (isinstance(ret[0].value, ast.Call) and ast.unparse(ret[0].value.func) == "chain"
+                             and len(ret[0].value.args) == 2):
+        raise ValueError("FortranBase.children does not return chain(<lists>, <non-list children>)")
+
+    ptree = ast.parse((common.REPO / "ford/fortran_project.py").read_text())
+    link_types = None
+    for node in ptree.body:
+        if isinstance(node, ast.Assign) and ast.unparse(node.targets[0]) == "LINK_TYPES" and isinstance(node.value, ast.Dict):
+            link_types = [(k.value, v.value) for k, v in zip(node.value.keys, node.value.values)]
+    if not link_types:
+        raise ValueError("LINK_TYPES not found in ford/fortran_project.py")
+    stree = ast.parse((common.REPO / "ford/sourceform.py").read_text())
+    find_in_list = None
+    sublink = None
+    for node in stree.body:
+        if isinstance(node, ast.FunctionDef) and node.name == "_find_in_list":
+            find_in_list = node
+        if isinstance(node, ast.Assign) and ast.unparse(node.targets[0]) == "SUBLINK_TYPES" and isinstance(node.value, ast.Dict):
+            sublink = [(k.value, v.value) for k, v in zip(node.value.keys, node.value.values)]
+    if find_in_list is None or sublink is None:
+        raise ValueError("_find_in_list / SUBLINK_TYPES not found in ford/sourceform.py")
+    _, mclasses = _classes("ford/_markdown.py")
+    fns = {
+        "find_child": _method(classes, "FortranBase", "find_child"),
+        "_find_in_list": find_in_list,
+        "Project.find": _method(pclasses, "Project", "find"),
+        "convert_link": _method(mclasses, "FordLinkProcessor", "convert_link"),
+        "get_url": _method(classes, "FortranBase", "get_url"),
+        "get_dir": _method(classes, "FortranBase", "get_dir"),
+    }
+    # candidate repair fixes/C05-doc-link-hidden-page.diff adds a module-level helper; absent in the code as it is
+    mtree = ast.parse((common.REPO / "ford/_markdown.py").read_text())
+    written = [n for n in mtree.body if isinstance(n, ast.FunctionDef) and n.name == "_has_written_page"]
+    # every class of the three modules that defines part of the lookup
+    defining = {}
+    for m in ("find_child", "children", "get_url", "get_dir", "find", "convert_link", "iterator"):
+        defining[m] = [f"{mod}:{c}" for mod, cl in (("sourceform", classes), ("fortran_project", pclasses), ("_markdown", mclasses))
+                       for c in _defining(cl, m)]
+    pins = {k: pin(v) for k, v in fns.items()}
+    srcs = {k: norm_src(v) for k, v in fns.items()}
+    pins["_has_written_page"] = pin(written[0]) if written else ""
+    srcs["_has_written_page"] = norm_src(written[0]) if written else "(not defined)"
+    return dict(child_lists=child_lists, non_list=non_list, link_types=link_types, sublink=sublink,
+                pins=pins, srcs=srcs, defining=defining)
 
 
 def translate():
@@ -213,6 +288,26 @@ def translate():
         nm = {"_set_display": "setDisplay", "_should_display": "shouldDisplay", "filter_display": "filterDisplay", "__str__": "str"}[k]
         L.append("/- " + k + ":\n" + t["srcs"][k].replace("-/", "- /") + "\n-/")
         L.append(f"/-- sha256[:16] of the normalised source (ast.unparse, docstring removed) of FortranBase.{k} -/")
+        L.append(f"def {nm}Pin : String := {lean_str(v)}")
+    lk = t["links"]
+    L.append("")
+    L.append("/-! ### `[[name]]` links in doc comments -/")
+    L.append(f"/-- FortranBase.children: the list attributes searched by `find_child`, in iteration order -/\ndef childrenLists : List String := {lean_list(lk['child_lists'])}")
+    L.append(f"/-- FortranBase.children: single-object attributes searched after the lists -/\ndef nonListChildren : List String := {lean_list(lk['non_list'])}")
+    L.append(f"/-- LINK_TYPES of ford/fortran_project.py: entity word -> project list searched by `Project.find` -/\ndef linkTypes : List (String × String) := {lean_pairs(lk['link_types'])}")
+    L.append(f"/-- SUBLINK_TYPES of ford/sourceform.py: entity word -> child list -/\ndef sublinkTypes : List (String × String) := {lean_pairs(lk['sublink'])}")
+    for m, cs in lk["defining"].items():
+        nm = {"find_child": "findChildDefinedIn", "children": "childrenDefinedIn", "get_url": "getUrlDefinedIn",
+              "get_dir": "getDirDefinedIn", "find": "findDefinedIn", "convert_link": "convertLinkDefinedIn",
+              "iterator": "iteratorDefinedIn"}[m]
+        L.append(f"/-- classes (module:class) that define `{m}` -/\ndef {nm} : List String := {lean_list(cs)}")
+    for k, v in lk["pins"].items():
+        nm = {"find_child": "findChild", "_find_in_list": "findInList", "Project.find": "projectFind",
+              "convert_link": "convertLink", "get_url": "getUrl", "get_dir": "getDir",
+              "_has_written_page": "hasWrittenPage"}[k]
+        L.append("/- " + k + ":\n" + lk["srcs"][k].replace("-/", "- /").replace("/-", "/ -") + "\n-/")
+        L.append(f"/-- sha256[:16] of the normalised source (ast.unparse, docstring removed) of {k}"
+                 + (" (empty: the function does not exist)" if k == "_has_written_page" else "") + " -/")
         L.append(f"def {nm}Pin : String := {lean_str(v)}")
     L += ["", "end Ford.Generated.C05", ""]
     common.write_if_changed(common.LEAN / "FordModel" / "Generated" / "C05.lean", "\n".join(L))
